@@ -279,7 +279,7 @@ fn one_matrix(item: u64, rng: &mut Rng, acc: &mut Acc) {
         let key: Vec<u64> = a.iter().flatten().map(|x| x.to_bits()).collect();
         acc.distinct.insert(hash_u64s(&key));
     }
-    if item < 3 && n >= 2 && n <= 3 {
+    if acc.samples.is_empty() {
         acc.sample(json!({"family": family, "n": n, "matrix": a, "kappa_F": kappa, "determinant": d.det, "determinant_exact": qf(&det_exact)}));
     }
     if !fails.is_empty() {
